@@ -45,12 +45,12 @@ def run_case(text, stem, delivery, options, workdir, suffix='.pdb'):
                 mol = run.single(stem + suffix, list(options), stream=io.StringIO(text))
             elif delivery == 'path':
                 p = os.path.join(workdir, stem + suffix)
-                with open(p, 'w') as fh:
+                with open(p, 'w', encoding='utf-8') as fh:
                     fh.write(text)
                 mol = run.single(p, list(options))
             else:
                 p = os.path.join(workdir, stem + suffix)
-                with open(p, 'w') as fh:
+                with open(p, 'w', encoding='utf-8') as fh:
                     fh.write(text)
                 sys.argv = ['propka3'] + list(options) + [p]
                 run.main()
